@@ -322,6 +322,7 @@ def oracle(ctx, deep):
         if got != exp:
             ctx.violation('C20:atom-row', f'Atom.for_isotope({name!r}) differs from the table rows',
                           {'name': name, 'got': got, 'expected': exp})
+    _oracle_history(ctx, scat, wmap, mmap, deep)
     valid_atom = set(wmap) | set(mmap)
     valid_scat = {r[0] for r in scat}
     nm = near_misses(ctx.rng, sorted(valid_atom | valid_scat), 3000 if deep else ctx.n(150, 1500))
@@ -360,6 +361,73 @@ def oracle(ctx, deep):
                           {**c, 'got_per_m': float(v), 'expected_per_m': float(exact)})
 
 
+def _mutate(v, how):
+    """modify a returned scalar Variable in place, the way a careless caller might"""
+    import scipp as sc
+
+    if how == 0:
+        v *= 2.0
+    elif how == 1:
+        v.value = 123.456
+    elif how == 2:
+        v += sc.scalar(1.0, unit=v.unit)
+    elif how == 3 and v.variance is not None:
+        v.variance = 99.0
+    else:
+        v.values = -1.0
+
+
+def _oracle_history(ctx, scat, wmap, mmap, deep):
+    """Lookups must be verbatim whatever callers did to earlier results: look up, modify every
+    returned Variable in place, look up again (same and other names), compare with the table."""
+    from scippneutron.atoms import Atom, ScatteringParams
+
+    rng = ctx.rng
+    n = 400 if deep else ctx.n(60, 600)
+    atom_names = rng.sample(sorted(mmap), min(n, len(mmap))) + rng.sample(sorted(wmap), min(n // 4 + 1, len(wmap)))
+    for name in atom_names:
+        first = _impl_atom(name)
+        a = Atom.for_isotope(name)
+        how = rng.randrange(5)
+        touched = []
+        for attr in ('atomic_weight', 'atomic_mass'):
+            try:
+                v = getattr(a, attr)
+            except ValueError:
+                continue
+            try:
+                _mutate(v, how)
+                touched.append(attr)
+            except Exception:  # noqa: BLE001
+                pass
+        second = _impl_atom(name)
+        ctx.case(('oracle-history-atom', name, how), True)
+        ctx.count('history:atom:' + '+'.join(touched))
+        if second != first:
+            ctx.violation('C20:lookup-depends-on-history',
+                          f'Atom.for_isotope({name!r}) changed after a caller modified the {"/".join(touched)} it had been handed (mutation kind {how})',
+                          {'name': name, 'how': how, 'op': 'atom', 'first': first, 'second': second})
+    for r in rng.sample(scat, min(n, len(scat))):
+        name = r[0]
+        first = _impl_scat(name)
+        p = ScatteringParams.for_isotope(name)
+        how = rng.randrange(5)
+        for f, _ in SCAT_FIELDS:
+            v = getattr(p, f)
+            if v is not None:
+                try:
+                    _mutate(v, how)
+                except Exception:  # noqa: BLE001
+                    pass
+        second = _impl_scat(name)
+        ctx.case(('oracle-history-scat', name, how), True)
+        if second != first:
+            ctx.violation('C20:lookup-depends-on-history',
+                          f'ScatteringParams.for_isotope({name!r}) changed after a caller modified the variables it had been handed (mutation kind {how})',
+                          {'name': name, 'how': how, 'op': 'scat', 'first': first, 'second': second})
+    _clear_caches()
+
+
 def replay(ctx, payload):
     w = payload.get('witness', {})
     key = payload.get('key', '')
@@ -368,6 +436,28 @@ def replay(ctx, payload):
     if key in ('C20:atom-row',):
         exp = w['expected']
         return _impl_atom(w['name']) != (tuple(_tuplify(exp)) if isinstance(exp, list) else exp)
+    if key == 'C20:lookup-depends-on-history':
+        from scippneutron.atoms import Atom, ScatteringParams
+
+        _clear_caches()
+        if w['op'] == 'atom':
+            first = _impl_atom(w['name'])
+            a = Atom.for_isotope(w['name'])
+            for attr in ('atomic_weight', 'atomic_mass'):
+                try:
+                    _mutate(getattr(a, attr), w['how'])
+                except Exception:  # noqa: BLE001
+                    pass
+            return _impl_atom(w['name']) != first
+        first = _impl_scat(w['name'])
+        p = ScatteringParams.for_isotope(w['name'])
+        for f, _ in SCAT_FIELDS:
+            if getattr(p, f) is not None:
+                try:
+                    _mutate(getattr(p, f), w['how'])
+                except Exception:  # noqa: BLE001
+                    pass
+        return _impl_scat(w['name']) != first
     if key == 'C20:near-miss-accepted':
         return isinstance(_impl_atom(w['name']), tuple) or isinstance(_impl_scat(w['name']), tuple)
     if key.startswith('C20:attenuation'):
